@@ -58,7 +58,15 @@ def gen_program(rng, length, mix):
                          rng.choice([None, None, 0, 1])])
         elif o == "newtab_dict":
             w_ = rng.randint(0, 3)
-            prog.append(["newtab_dict", [[rng.choice(["a", "b", "c", "x"]), rand_vals(rng, n)] for _ in range(w_)]])
+            if rng.random() < 0.25:
+                # dict values that are the CALLER'S tuples (one tuple for several columns, or one a live vector was built over):
+                # Table(dict) snapshots what it is given - its columns own their storage like any other table's
+                k = rng.randint(0, 2)
+                ln = [3, 2, 0][k]
+                prog.append(["newtab_dict", [[rng.choice(["a", "b", "c", "x"]), ["tup", k] if rng.random() < 0.7 else rand_vals(rng, ln)]
+                                             for _ in range(max(1, w_))]])
+            else:
+                prog.append(["newtab_dict", [[rng.choice(["a", "b", "c", "x"]), rand_vals(rng, n)] for _ in range(w_)]])
         elif o == "newtab_vecs":
             prog.append(["newtab_vecs", [rng.randint(0, 50) for _ in range(rng.randint(1, 3))]])
         elif o in ("copy", "fp", "read", "drop", "cycle_drop", "transpose", "sort", "math", "fillna", "dropna", "fillna_w"):
@@ -75,10 +83,14 @@ def gen_program(rng, length, mix):
             prog.append(["vcat", s, rand_vals(rng, rng.choice([0, 0, 1, 2]))])
         elif o == "mask":
             prog.append(["mask", s, [rng.random() < 0.5 for _ in range(6)]])
+        elif o == "rowidx":               # v[[i, j, ...]] / t[[i, j, ...]]: positions as a list or as a Vector of ints (repeats, negatives)
+            prog.append(["rowidx", s, [rng.randint(-4, 4) for _ in range(rng.randint(1, 4))], rng.random() < 0.5])
         elif o == "colview":
             prog.append(["colview", s, rng.randint(0, 3)])
         elif o == "selcols":
-            prog.append(["selcols", s, [rng.randint(0, 3) for _ in range(rng.randint(1, 3))]])
+            ks = [rng.randint(0, 3) for _ in range(rng.randint(1, 3))]
+            # every column may be asked for by its advertised accessor (col<N>_, name__N, the sanitised form) instead of its name
+            prog.append(["selcols", s, ks, [rng.random() < 0.45 for _ in ks]])
         elif o == "sel2d":                # t[rows, column(s)]: a row slice (often one covering every row) with one column / several
             whole = rng.random() < 0.5
             rows = [rng.choice([None, 0]), rng.choice([None, 9, 99]), rng.choice([None, 1])] if whole else \
@@ -358,7 +370,11 @@ def _exec(w, pop, changed_ok):
             for name, vals in pop[1]:
                 if name in d:
                     continue
-                d[name] = list(vals)
+                if len(vals) == 2 and vals[0] == "tup":
+                    d[name] = w.tuples[vals[1] % len(w.tuples)]
+                    vals = list(d[name])
+                else:
+                    d[name] = list(vals)
                 specs.append((name, vals))
             hs = w.reserve(len(specs) + 1)
             try:
@@ -430,12 +446,19 @@ def _exec(w, pop, changed_ok):
             if isinstance(r, Table) or not isinstance(r, Vector):
                 raise Skip()
             op_term = _vec_result(w, r, f"(CCat {cnat(w.handle_of(o))} {_vals(w, pop[2])})")
-        elif kind in ("slice", "mask"):
+        elif kind in ("slice", "mask", "rowidx"):
             o = w.slot(pop[1])
             n = len(o) if not isinstance(o, Table) else (len(o._underlying[0]) if o._underlying else 0)
             if kind == "slice":
                 key = slice(pop[2], pop[3], pop[4])
                 idx = list(range(n))[key]
+            elif kind == "rowidx":
+                if n == 0:
+                    raise Skip()
+                idx = [(i % n) if i >= 0 else n - 1 - ((-i - 1) % n) for i in pop[2]]
+                key = [j if i >= 0 else j - n for i, j in zip(pop[2], idx)]            # negatives stay negatives, in range
+                if pop[3]:
+                    key = Vector(key)
             else:
                 bits = [pop[2][i % len(pop[2])] for i in range(n)]
                 key = [bool(b) for b in bits]
@@ -447,12 +470,16 @@ def _exec(w, pop, changed_ok):
                 cols = o.__dict__["_underlying"]
                 if not cols:
                     raise Skip()
+                expect = [[c.__dict__["_underlying"][i] for i in idx] for c in cols]
                 r = o[key]
+                del key
                 if not isinstance(r, Table):
                     raise Skip()
-                op_term = _table_result(w, r, [f"(CFrom {cnat(w.handle_of(c))} {sel})" for c in cols])
+                op_term = _table_result(w, r, [f"(CFrom {cnat(w.handle_of(c))} {sel})" for c in cols], expect=expect,
+                                        what=f"the {kind} selection of rows {idx}")
             else:
                 r = o[key]
+                del key
                 op_term = _vec_result(w, r, f"(CFrom {cnat(w.handle_of(o))} {sel})")
         elif kind == "colview":
             t = w.slot(pop[1], "t")
@@ -491,25 +518,41 @@ def _exec(w, pop, changed_ok):
                 if any(c._name is None for c in picked):
                     raise Skip()
                 picked = [first[c._name] for c in picked]
+                expect = [[c.__dict__["_underlying"][i] for i in idx] for c in picked]
                 r = t[key, tuple(c._name for c in picked)]
                 if not isinstance(r, Table):
                     raise Skip()
-                op_term = _table_result(w, r, [f"(CFrom {cnat(w.handle_of(c))} {sel})" for c in picked])
+                op_term = _table_result(w, r, [f"(CFrom {cnat(w.handle_of(c))} {sel})" for c in picked], expect=expect,
+                                        what=f"t[rows {idx}, {tuple(c._name for c in picked)!r}] (a repeated name denotes its first column)")
         elif kind == "selcols":
             t = w.slot(pop[1], "t")
             cols = t.__dict__["_underlying"]
             if not cols:
                 raise Skip()
             sel = [cols[i % len(cols)] for i in pop[2]]
-            if any(c._name is None for c in sel):
-                raise Skip()
-            # string selection resolves a repeated name to its first occurrence
+            forms = pop[3] if len(pop) > 3 else [False] * len(sel)
+            # string selection resolves a repeated name to its first occurrence; an advertised accessor denotes its own column
             first = {}
             for c in cols:
                 first.setdefault(c._name, c)
-            sel = [first[c._name] for c in sel]
-            r = t[tuple(c._name for c in sel)]
-            op_term = _table_result(w, r, [f"(CFrom {cnat(w.handle_of(c))} None)" for c in sel])
+            keys, sel2 = [], []
+            for c, by_accessor in zip(sel, forms):
+                acc = [a for a in dir(t) if not a.startswith("_") and a != c._name and getattr(type(t), a, None) is None
+                       and getattr(t, a, None) is c] if by_accessor else []
+                if acc:
+                    keys.append(sorted(acc)[0])
+                    sel2.append(c)
+                    w.stats["sel_by_accessor"] = w.stats.get("sel_by_accessor", 0) + 1
+                elif isinstance(c._name, str):
+                    keys.append(c._name)
+                    sel2.append(first[c._name])
+                else:
+                    raise Skip()
+            sel = sel2
+            expect = [list(c.__dict__["_underlying"]) for c in sel]
+            r = t[tuple(keys)]
+            op_term = _table_result(w, r, [f"(CFrom {cnat(w.handle_of(c))} None)" for c in sel], expect=expect,
+                                    what=f"t[{tuple(keys)!r}] (a repeated name denotes its first column, as t[name] does)")
         elif kind == "stack":
             t = w.slot(pop[1], "t")
             cols = t.__dict__["_underlying"]
@@ -834,8 +877,17 @@ def _known(w, obj):
     return w.handle_of(obj, create=False)
 
 
-def _table_result(w, t, specs, lit_dtypes=False):
+def _same_cells(a, b):
+    return len(a) == len(b) and all(type(x) is type(y) and (x == y or (x != x and y != y)) for x, y in zip(a, b))
+
+
+def _table_result(w, t, specs, lit_dtypes=False, expect=None, what=""):
     cols = t.__dict__["_underlying"]
+    if expect is not None:
+        got = [list(c.__dict__["_underlying"]) for c in cols]
+        if len(got) != len(expect) or not all(_same_cells(g, e) for g, e in zip(got, expect)):
+            w.findings.append(f"C02-cells: {what} must hold the cells of the columns it names / the rows it selects, uniformly: "
+                              f"expected columns {expect!r}, the result holds {got!r}")
     old = [(j, _known(w, c)) for j, c in enumerate(cols)]
     if _known(w, t) is not None:
         w.findings.append(f"C01-result-is-operand: the operation returned the table object h{_known(w, t)} the program already "
